@@ -871,7 +871,8 @@ fn gen_code_site(r: &mut Rng, w: &mut World, owner: u32) -> Option<(Vec<Site>, S
             }
         }
         Sp::M => {
-            let v = r.below(NVAR_M);
+            // (`memory.copy`, the only operator with two memory immediates, one time in eight)
+            let v = if r.chance(1, 8) { 5 } else { r.below(NVAR_M) };
             if v == 6 && !w.allow_meminit {
                 0
             } else {
@@ -885,7 +886,8 @@ fn gen_code_site(r: &mut Rng, w: &mut World, owner: u32) -> Option<(Vec<Site>, S
     if sp == Sp::M && variant == 5 {
         // memory.copy between two (usually different) memories
         let pool = if live.is_empty() { all.clone() } else { live.clone() };
-        let h2 = *r.pick(&pool);
+        // within one memory one time in three
+        let h2 = if r.chance(1, 3) { h } else { *r.pick(&pool) };
         id2 = w.handles[h2].id;
         sites.push(w.site(Sp::M, h2, Class::CodeSrc { owner }));
     }
@@ -1015,10 +1017,29 @@ pub fn run(ctx: &mut Ctx) {
         let mut module = Module::parse(&bytes, true).expect("base module parses");
         let mut leaked: Vec<String> = vec![];
         let _ = &mut leaked;
+        // a function that was just put in the place of an import gets function-exit code next (half of the time): special modes on
+        // functions the parser never counted as local
+        let mut followup: Option<(usize, bool)> = None;
         for step in 0..=nops {
             let mut last = step == nops;
             // ---- choose an operation
             let mut chosen: Option<Op> = None;
+            if let (Some((h, delete)), false, true) = (followup.take(), last, enumerated.is_none()) {
+                if delete {
+                    // … or is deleted again (an import slot that was vacated twice)
+                    if w.handles[h].cur.is_some() {
+                        chosen = Some(Op::Df { h });
+                    }
+                } else if let Some(owner) = w.handles[h].cur {
+                    if !w.entity(owner).imp {
+                        let mut sites = vec![];
+                        if let Some((ss, _)) = gen_code_site(&mut r, &mut w, owner) {
+                            sites.extend(ss);
+                        }
+                        chosen = Some(Op::Inj { h, sites, at: 3 });
+                    }
+                }
+            }
             if enumerated.is_some() && !last {
                 // digits are written in bijective numeration: 0 = end of the history
                 if digits == 0 {
@@ -1041,6 +1062,13 @@ pub fn run(ctx: &mut Ctx) {
             if let Op::Inj { at: 3, sites, .. } = &op {
                 w.special_sites.extend(sites.iter().map(|s| s.id));
                 ctx.count("inject=function-exit");
+            }
+            if let (Op::Ri { h: Some(h), .. }, true) = (&op, enumerated.is_none()) {
+                if r.chance(1, 2) {
+                    followup = Some((*h, false));
+                } else if r.chance(1, 3) {
+                    followup = Some((*h, true));
+                }
             }
             // ---- token for the model
             let refs = |w: &World, ss: &Vec<Site>| if ss.is_empty() { "-".to_string() } else { ss.iter().map(|s| w.refstr(s)).collect::<Vec<_>>().join("+") };
